@@ -178,7 +178,7 @@ func (changes *Changes) Copy(dest string) error {
 	}
 
 	for _, file := range changes.Files {
-		if err := checkListedFilename(file.Filename); err != nil {
+		if err := checkListedFilename(file.Filename, changes.Filename); err != nil {
 			return err
 		}
 	}
@@ -210,7 +210,7 @@ func (changes *Changes) Move(dest string) error {
 	}
 
 	for _, file := range changes.Files {
-		if err := checkListedFilename(file.Filename); err != nil {
+		if err := checkListedFilename(file.Filename, changes.Filename); err != nil {
 			return err
 		}
 	}
@@ -234,7 +234,7 @@ func (changes *Changes) Move(dest string) error {
 // on removing associated files.
 func (changes *Changes) Remove() error {
 	for _, file := range changes.Files {
-		if err := checkListedFilename(file.Filename); err != nil {
+		if err := checkListedFilename(file.Filename, changes.Filename); err != nil {
 			return err
 		}
 	}
